@@ -20,7 +20,38 @@ pub fn render(case: &str) -> String {
     s
 }
 
+/// #include and #pragma inside selected and unselected groups: (files, the tokens C's rules let through)
+const INCLUDE_PROBES: &[(&[(&str, &str)], &str)] = &[
+    (&[("main.rssl", "#include \"f.h\"\n#define W\n#include \"f.h\"\n"), ("f.h", "#ifdef G\n#pragma once\n#endif\n#ifdef W\ny\n#else\nx\n#endif\n")], "x y"),
+    (&[("main.rssl", "#if 0\n#include \"missing.h\"\n#endif\na\n")], "a"),
+    (&[("main.rssl", "#if 0\n#pragma nonsense\n#endif\nb\n")], "b"),
+    (&[("main.rssl", "#ifdef U\n#pragma once\n#endif\nc\n")], "c"),
+    (&[("main.rssl", "#include \"f.h\"\n#include \"f.h\"\n"), ("f.h", "#pragma once\nz\n")], "z"),
+    (&[("main.rssl", "#if 1\nd\n#else\n#include \"missing.h\"\n#endif\n")], "d"),
+    (&[("main.rssl", "#include \"f.h\"\n#include \"f.h\"\n"), ("f.h", "#if 0\n#pragma once\n#endif\nq\n")], "q q"),
+    (&[("main.rssl", "#if 0\n#define A 1\n#undef B\n#endif\n#define B 2\nB A\n")], "2 A"),
+    (&[("main.rssl", "#include \"f.h\"\n#include \"f.h\"\n"), ("f.h", "#if 1\n#pragma once\n#endif\nr\n")], "r"),
+    (&[("main.rssl", "#ifndef G\n#else\n#pragma once\n#endif\n#include \"g.h\"\n#include \"g.h\"\n"), ("g.h", "#ifdef G\n#elif 0\n#pragma once\n#else\ns\n#endif\n")], "s s"),
+];
+
+fn run_probe(k: usize) -> String {
+    let (files, want) = match INCLUDE_PROBES.get(k) { Some(x) => *x, None => return "BAD-CASE".into() };
+    let mut sm = rssl::text::SourceManager::new();
+    let mut inc = MemFiles::from(files);
+    match catch(|| rssl::preprocess::preprocess("main.rssl", &mut sm, &mut inc, &[])) {
+        Ok(Ok(tokens)) => {
+            let toks = rssl::preprocess::prepare_tokens(&tokens);
+            let mut out: Vec<String> = Vec::new();
+            for t in &toks { match &t.0 { Token::Id(id) => out.push(id.0.clone()), Token::LiteralInt(v) => out.push(v.to_string()), Token::Eof => {}, other => out.push(format!("{:?}", other).replace(' ', "")) } }
+            format!("PROBE {} | {}", out.join(" "), want)
+        }
+        Ok(Err(e)) => format!("PROBE ERR {} | {}", format!("{:?}", e).split(|c: char| !c.is_alphanumeric()).next().unwrap_or(""), want),
+        Err(_) => "PANIC".into(),
+    }
+}
+
 pub fn run_line(case: &str) -> String {
+    if let Some(k) = case.trim().strip_prefix("I ") { return run_probe(k.trim().parse().unwrap_or(usize::MAX)); }
     let src = render(case);
     let mut sm = rssl::text::SourceManager::new();
     let mut inc = MemFiles::single("main.rssl", &src);
@@ -136,6 +167,7 @@ fn gen_tree(rng: &mut Rng, depth: u32, counter: &mut u32, out: &mut Vec<String>)
 pub fn gen_cases(seed: u64, n: usize, thorough: bool) -> Vec<String> {
     let mut rng = Rng::new(seed);
     let mut out = Vec::new();
+    for k in 0..INCLUDE_PROBES.len() { out.push(format!("I {}", k)); }
     // exhaustive directive sequences over the property's 12-symbol alphabet
     let alpha = ["if 0", "if 1", "ifdef D", "ifdef U", "ifndef D", "ifndef U", "elif 0", "elif 1", "else", "endif", "t", "define U 1"];
     let max_len = if thorough { 6 } else { 4 };
